@@ -276,9 +276,6 @@ def run(chk):
 
     def advance():
         b = P.body("emit_file::EventBatch::advance")
-        tk = b.calls_to(path="core::mem::take")
-        if len(tk) != 1:
-            return False, "advance must take the current buffer", [], b.span
         writes = {}
         for bb, j, s in b.statements(normal_only=True):
             if s["k"] == "assign" and "p" in s["place"]:
@@ -289,19 +286,53 @@ def run(chk):
         rem = writes.get("remaining_bytes")
         if idx is None or rem is None:
             return False, "advance must update index and remaining_bytes", [], b.span
-        def is_step(o, op, k=None):
-            if o[0] == "field" and o[1][0] == "binop":
-                o = o[1]
-            return o[0] == "binop" and o[1].startswith(op)
-        if not is_step(idx, "Add") or mir.o_const_value((idx[1] if idx[0] == "field" else idx)[3]) != 1:
+        i = idx[1] if idx[0] == "field" else idx
+        if not (i[0] == "binop" and i[1].startswith("Add")) or mir.o_const_value(i[3]) != 1:
             return False, "index is advanced by %s, not by one" % o_str(idx), [], b.span
         r = rem[1] if rem[0] == "field" else rem
         if not (r[0] == "binop" and r[1].startswith("Sub")):
             return False, "remaining_bytes update is %s" % o_str(rem), [], b.span
-        if not (mir.o_is_call(r[3], name="len") and common.has_root(r[3], "callsite", tk[0].bb)):
-            return False, "remaining_bytes is reduced by %s, not the taken buffer's length" % o_str(r[3]), [], b.span
+        ln = r[3]
+        if not mir.o_is_call(ln, name="len"):
+            return False, "remaining_bytes is reduced by %s, not a buffer length" % o_str(ln), [], b.span
+        # the buffer is bufs[index] (indexed by the cursor) or the buffer taken from that slot
+        rr = common.roots(ln)
+        src = b.origin(ln[1].args[0], through_calls=("deref", "as_ref", "take", "index", "index_mut", "borrow"))
+        names = []
+        x = src
+        while x[0] in ("field", "index", "downcast"):
+            if x[0] == "field":
+                names.append(x[2])
+            x = x[1]
+        if "bufs" not in names:
+            return False, "the length subtracted is that of %s, not the buffer at the cursor" % o_str(src), [], b.span
         return True, "", [b.span]
-    chk.ob("C10.R7:EventBatch::advance", "advance moves the cursor by one and subtracts exactly the taken buffer's length", advance)
+    chk.ob("C10.R7:EventBatch::advance", "advance moves the cursor by one and subtracts exactly the length of the buffer at the cursor", advance)
+
+    def rewind():
+        if not P.has_body("emit_file::EventBatch::rewind"):
+            return True, "no rewind (remainder-only retry): R8 then requires a sync on the error path", [P.body("emit_file::EventBatch::advance").span]
+        b = P.body("emit_file::EventBatch::rewind")
+        writes = {}
+        for bb, j, s in b.statements(normal_only=True):
+            if s["k"] == "assign" and "p" in s["place"]:
+                names = [p.get("n") for p in s["place"]["p"] if isinstance(p, dict) and "f" in p]
+                if names and names[-1] in ("index", "remaining_bytes"):
+                    writes[names[-1]] = b.origin(s["rv"]["op"]) if s["rv"]["k"] == "use" else ("unknown",)
+        if mir.o_const_value(writes.get("index", ("unknown",))) != 0:
+            return False, "rewind must reset the cursor to 0", [], b.span
+        rem = writes.get("remaining_bytes")
+        if rem is None or not mir.o_is_call(rem, name="sum"):
+            return False, "rewind must recompute remaining_bytes as the sum of all buffer lengths (found %s)" % (o_str(rem) if rem else None), [], b.span
+        chain = b.origin(rem[1].args[0], through_calls=("map", "iter", "deref", "copied", "cloned"))
+        if mir.o_field_path(chain)[1][-1:] != ["bufs"]:
+            return False, "remaining_bytes is summed over %s" % o_str(chain), [], b.span
+        # and advance must keep the buffers (not take them) for a rewind to re-send them
+        a = P.body("emit_file::EventBatch::advance")
+        if a.calls_to(path="core::mem::take") or a.calls_to(path="core::mem::replace"):
+            return False, "advance() takes buffers out of the batch, so a rewound batch would re-send empty records", [], a.span
+        return True, "", [b.span]
+    chk.ob("C10.R8:EventBatch::rewind", "a rewound batch is the whole batch again: cursor 0, byte count recomputed, buffers kept by advance()", rewind)
 
     def r8_exits():
         cb = main_closure(P)
@@ -310,24 +341,22 @@ def run(chk):
         if len(adv) != 1 or len(sy) != 1:
             raise mir.AnchorMissing("advance / sync_all in the worker")
         a, s = adv[0], sy[0]
-        reach = cb.reachable_from(a.term.get("t"), removed_blocks={s.bb})
+        rw = {c.bb for c in cb.calls_to(path="emit_file::EventBatch::rewind")}
+        reach = cb.reachable_from(a.term.get("t"), removed_blocks={s.bb} | rw)
         exits = []
-        for rb in cb.return_blocks():
-            if rb not in reach:
-                continue
-            # name each way out by the error constructor feeding the return and the call whose failure selects it
-            found = False
-            for c in cb.calls_to(path_re=r"BatchError::<.*>::(retry|no_retry)$"):
-                if c.bb in reach and rb in cb.reachable_from(c.bb):
-                    sel = "?"
-                    for g, v, n in cb.guards_of(c.bb):
-                        so = cb.switch_origin(g)
-                        if so[0] == "discr" and so[1][0] == "call":
-                            sel = so[1][1].callee.get("name")
-                    exits.append(("%s@%s" % (c.callee.get("name"), sel), c.loc))
-                    found = True
-            if not found:
-                exits.append(("return@bb%d" % rb, cb.span))
+        # ways out that can lead to the skipped events being acknowledged later: a retryable error (the batch handed
+        # back no longer contains them) - a permanent error (no_retry) fails the whole batch and acknowledges nothing
+        for c in cb.calls_to(path_re=r"BatchError::<.*>::retry$"):
+            if c.bb in reach:
+                sel = "?"
+                for g, v, n in cb.guards_of(c.bb):
+                    so = cb.switch_origin(g)
+                    if so[0] == "discr" and so[1][0] == "call":
+                        sel = so[1][1].callee.get("name")
+                exits.append(("%s@%s" % (c.callee.get("name"), sel), c.loc))
+        for bb, j, st in cb.statements(normal_only=True):
+            if st["k"] == "assign" and st["place"]["l"] == 0 and "p" not in st["place"] and st["rv"]["k"] == "agg" and st["rv"].get("variant") == "Ok" and bb in reach:
+                exits.append(("Ok@bb%d" % bb, "%s:%s" % (cb.file, st.get("line"))))
         return cb, a, s, sorted(set(exits))
     try:
         cb_, a_, s_, exits_ = r8_exits()
@@ -339,7 +368,7 @@ def run(chk):
                      "after batch.advance() has moved past an event (so it is no longer in the remainder that would be retried) "
                      "the worker can leave through `%s` at %s without sync_all(): the poisoned file is dropped unsynced, the "
                      "remainder is retried on a new file and the batch is acknowledged - the earlier events of that batch "
-                     "were never synced" % (name, loc), loc=loc)
+                     "were never synced (and the batch is not rewound to include them in the retry)" % (name, loc), loc=loc)
     except mir.AnchorMissing as e:
         chk.fail("C10.R8:advanced-events-synced", "events the cursor has moved past are synced before the worker returns on any path", "anchor missing: %s" % e)
 
